@@ -208,9 +208,17 @@ func (w *world) opLines(c *call, caller util.Uint160, out *[]string) {
 		case dPub:
 			data = fmt.Sprintf("pk %d", w.pid(c.dpub))
 		}
-		recv := w.recvOf(c.dst, c.data)
-		*out = append(*out, fmt.Sprintf("transfer %s %d %d %s %s %s %s", tok, w.aid(c.src), w.aid(c.dst), c.amt, cl, recv, data))
-		if recv == "cb" {
+		// the shape of the data; what the receiver does with it is the model's decision (contract registry of the
+		// init line); the nested call of a [hash, method, args] payment follows whenever the receiver is a Wallet
+		dk := "o"
+		switch c.data {
+		case dNull:
+			dk = "n"
+		case dCall:
+			dk = "c"
+		}
+		*out = append(*out, fmt.Sprintf("transfer %s %d %d %s %s %s %s", tok, w.aid(c.src), w.aid(c.dst), c.amt, cl, dk, data))
+		if w.recvOf(c.dst, c.data) == "cb" {
 			// recorded by the model only if the transfer gets as far as the callback; the nested
 			// lines are always present, the model skips them while failing / not in a callback.
 			w.opLines(c.nested, c.dst, out)
@@ -230,12 +238,10 @@ func (w *world) opLines(c *call, caller util.Uint160, out *[]string) {
 		*out = append(*out, fmt.Sprintf("lock %d %d %s", w.aid(c.src), c.till, cl))
 	case kWithdraw:
 		to := "-"
-		dst := c.src
 		if !c.dstNil {
 			to = fmt.Sprint(w.aid(c.dst))
-			dst = c.dst
 		}
-		*out = append(*out, fmt.Sprintf("withdraw %d %s %s %s", w.aid(c.src), to, cl, w.recvOf(dst, dNull)))
+		*out = append(*out, fmt.Sprintf("withdraw %d %s %s", w.aid(c.src), to, cl))
 	case kSetGpb:
 		*out = append(*out, fmt.Sprintf("setgpb %s %s", c.amt, cl))
 	case kSetRegPrice:
